@@ -63,6 +63,13 @@ def scenarios(run):
             rot = kv[k * 2:] + kv[:k * 2]
             out.append((cfg, z + [('UpdateSettings', rot), RX(('Settings', True, [])), RX(('Settings', False, list(reversed(rot)))), ('Drain',),
                                   ('UpdateSettings', [(4, 100)]), RX(('Settings', True, [])), RX(('Settings', False, [(4, 5)]))]))
+        # header lists with repeated fields (cookies are joined, duplicates must keep their positions)
+        ck = [(b'cookie', v, False) for v in (b'a=1', b'lang=en', b'b=2', b'lang=en', b'c=3', b'd=4')]
+        hs = list(t2.RESP if client else t2.REQ) + ck + [(b'x-dup', b'1', False), (b'x-dup', b'2', False), (b'x-dup', b'1', False)]
+        sid = 11 if client else 13
+        out.append((cfg, z + [RX(('Headers', sid, False, None, ('Decoded', hs)))]))
+        mine = list(t2.REQ if client else t2.RESP) + ck
+        out.append((cfg, z + [('SendHeaders', 13 if client else 1, mine, 0, False, None, None, None)]))
     return out
 
 
